@@ -137,12 +137,48 @@ fn stream_echo(s: &RecStream, op: &Value, g: u64, dest: u64) {
     }
 }
 
+/// a handle whose destructor panics (a join handle whose thread died, say): the detach propagates the panic, but the
+/// global must be detached and usable afterwards
+struct PanicOnDrop;
+pub const HANDLE_PANIC: &str = "harness: the destructor of the handle that came with the sink panics";
+impl Drop for PanicOnDrop {
+    fn drop(&mut self) {
+        if !std::thread::panicking() {
+            std::panic::panic_any(HANDLE_PANIC);
+        }
+    }
+}
+
+/// a handle whose destructor takes as long as the harness says (a final flush that blocks): it reports that it has
+/// begun and then waits for the gate
+struct SlowHandle {
+    begun: Arc<std::sync::atomic::AtomicBool>,
+    key: u64,
+    gate: Arc<std::sync::atomic::AtomicBool>,
+}
+impl Drop for SlowHandle {
+    fn drop(&mut self) {
+        self.begun.store(true, std::sync::atomic::Ordering::SeqCst);
+        detsim::unblock(self.key);
+        let mut n = 0;
+        while !self.gate.load(std::sync::atomic::Ordering::SeqCst) && n < 10_000 {
+            detsim::sleep_ns(1_000_000);
+            n += 1;
+        }
+    }
+}
+
 struct ThreadState {
+    slow_helpers: Vec<detsim::thread::JoinHandle<()>>,
     tl_guard: [Option<ThreadLocalTestSinkGuard>; 2],
     rt_enter: Option<(u64, tokio::runtime::EnterGuard<'static>)>,
 }
 
 struct Ctl {
+    /// (begun, key, gate) of the slow handle that came with the currently attached sink, if it has one
+    slow: [Option<(Arc<std::sync::atomic::AtomicBool>, u64, Arc<std::sync::atomic::AtomicBool>)>; 2],
+    /// gates of slow destructors that are running (on helper threads) and have not been let go yet
+    pending_gates: Vec<Arc<std::sync::atomic::AtomicBool>>,
     attach: [Option<AttachHandle>; 2],
     rt_guard: BTreeMap<(u64, u64), TokioRuntimeTestSinkGuard>,
 }
@@ -152,7 +188,7 @@ fn catch<R>(f: impl FnOnce() -> R) -> Result<R, String> {
 }
 
 fn g_ops(plan: &Value, tno: u64, ops: &[Value], log: &GLog, hist: &History, rts: &'static [tokio::runtime::Runtime], ctl: &Arc<detsim::sync::Mutex<Ctl>>) {
-    let mut ts = ThreadState { tl_guard: [None, None], rt_enter: None };
+    let mut ts = ThreadState { slow_helpers: vec![], tl_guard: [None, None], rt_enter: None };
     let _ = plan;
     for op in ops {
         let name = js(op, "op", "").to_string();
@@ -189,7 +225,13 @@ fn g_ops(plan: &Value, tno: u64, ops: &[Value], log: &GLog, hist: &History, rts:
                         // `emitting_handle_accepted`; until fix: commit of 12.3 #7 the detach dropped it under the
                         // global's write lock).
                         let refused = ctl.lock().unwrap().attach[gi].is_some();
-                        if jb(op, "emitting_handle", false) && (refused || jb(op, "emitting_handle_accepted", false)) {
+                        if !refused && js(op, "handle", "") == "panic" {
+                            with_global!(g, G => G::attach((sink, PanicOnDrop)))
+                        } else if !refused && js(op, "handle", "") == "slow" {
+                            let (begun, key, gate) = (Arc::new(std::sync::atomic::AtomicBool::new(false)), detsim::fresh_key(), Arc::new(std::sync::atomic::AtomicBool::new(false)));
+                            ctl.lock().unwrap().slow[gi] = Some((begun.clone(), key, gate.clone()));
+                            with_global!(g, G => G::attach((sink, SlowHandle { begun, key, gate })))
+                        } else if jb(op, "emitting_handle", false) && (refused || jb(op, "emitting_handle_accepted", false)) {
                             with_global!(g, G => G::attach((sink, EmitOnDrop { g, id: 9_000_001 + 5 * dest })))
                         } else {
                             with_global!(g, G => G::attach((sink, ())))
@@ -203,6 +245,34 @@ fn g_ops(plan: &Value, tno: u64, ops: &[Value], log: &GLog, hist: &History, rts:
                     }
                     Err(p) => format!("panic:{p}"),
                 }
+            }
+            "detach" if ctl.lock().unwrap().slow[gi].is_some() && ctl.lock().unwrap().attach[gi].is_some() => {
+                // the handle that came with the sink has a slow destructor: the attach handle is dropped on a helper
+                // thread, and this operation ends when that destructor has *begun* (the sink is out of the global by
+                // then, routing has moved on); `slow_finish` lets the destructor return and joins the helper
+                let (h, (begun, key, _gate)) = {
+                    let mut c = ctl.lock().unwrap();
+                    let s = c.slow[gi].take().unwrap();
+                    c.pending_gates.push(s.2.clone());
+                    (c.attach[gi].take().unwrap(), s)
+                };
+                let helper = detsim::thread::spawn_named("slow-detach", move || drop(h));
+                let mut n = 0;
+                while !begun.load(std::sync::atomic::Ordering::SeqCst) && n < 1_000 {
+                    let _ = detsim::block_on_key(key, Some(detsim::clock_ns() + 1_000_000), detsim::site());
+                    n += 1;
+                }
+                ts.slow_helpers.push(helper);
+                if begun.load(std::sync::atomic::Ordering::SeqCst) { "ok".into() } else { "stuck".into() }
+            }
+            "slow_finish" => {
+                for gate in ctl.lock().unwrap().pending_gates.drain(..) {
+                    gate.store(true, std::sync::atomic::Ordering::SeqCst);
+                }
+                for h in ts.slow_helpers.drain(..) {
+                    let _ = h.join();
+                }
+                "ok".into()
             }
             "detach" => {
                 let h = ctl.lock().unwrap().attach[gi].take();
@@ -227,6 +297,7 @@ fn g_ops(plan: &Value, tno: u64, ops: &[Value], log: &GLog, hist: &History, rts:
                 match h {
                     Some(h) => {
                         h.forget();
+                        ctl.lock().unwrap().slow[gi] = None;
                         "ok".into()
                     }
                     None => "none".into(),
@@ -336,7 +407,15 @@ fn g_ops(plan: &Value, tno: u64, ops: &[Value], log: &GLog, hist: &History, rts:
         };
         log.log(GK::OpEnd { op: desc, outcome });
     }
-    // leave the thread clean
+    // leave the thread clean (slow handles belong to the control thread)
+    if tno == 0 {
+        for gate in ctl.lock().unwrap().pending_gates.drain(..) {
+            gate.store(true, std::sync::atomic::Ordering::SeqCst);
+        }
+    }
+    for h in ts.slow_helpers.drain(..) {
+        let _ = h.join();
+    }
     ts.tl_guard = [None, None];
     ts.rt_enter = None;
 }
@@ -348,7 +427,7 @@ fn runtimes() -> &'static [tokio::runtime::Runtime] {
 
 fn global_main(plan: &Value, log: GLog, hist: History) {
     let rts = runtimes();
-    let ctl = Arc::new(detsim::sync::Mutex::new(Ctl { attach: [None, None], rt_guard: BTreeMap::new() }));
+    let ctl = Arc::new(detsim::sync::Mutex::new(Ctl { slow: [None, None], pending_gates: vec![], attach: [None, None], rt_guard: BTreeMap::new() }));
     let mut hs = vec![];
     for (i, ops) in ja(plan, "threads").iter().enumerate().skip(1) {
         let ops: Vec<Value> = ops.as_array().cloned().unwrap_or_default();
@@ -364,10 +443,16 @@ fn global_main(plan: &Value, log: GLog, hist: History) {
     let mut c = ctl.lock().unwrap();
     c.rt_guard.clear();
     let hs: Vec<AttachHandle> = c.attach.iter_mut().filter_map(|h| h.take()).collect();
+    for s in c.slow.iter_mut() {
+        if let Some((_, _, gate)) = s.take() {
+            gate.store(true, std::sync::atomic::Ordering::SeqCst);
+        }
+    }
     drop(c);
     for h in hs {
         log.log(GK::OpBegin { op: "final_detach".into() });
-        drop(h);
+        // (a handle whose destructor panics: expected, caught)
+        let _ = catch(|| drop(h));
         log.log(GK::OpEnd { op: "final_detach".into(), outcome: "ok".into() });
     }
     // Every attach handle has been dropped (unless the plan forgets one): no writer thread of a queue that was
@@ -472,6 +557,8 @@ pub fn check_c17(plan: &Value, h: &[GEv], hist: &[Ev]) -> Option<Violation> {
         let mut attached_changes: Vec<(u64, u64, Option<u64>)> = vec![];
         let mut rt_changes: BTreeMap<u64, Vec<(u64, u64, Option<u64>)>> = BTreeMap::new();
         let mut attached_now: Option<u64> = None;
+        // the handle that came with the attached sink panics in its destructor
+        let mut attached_panics = false;
         let mut rt_now: BTreeMap<u64, Option<u64>> = BTreeMap::new();
         let mut forgotten = false;
         for op in ops.iter().filter(|o| ju(&o.spec, "g", 0).min(1) == g || o.name == "final_detach") {
@@ -488,13 +575,19 @@ pub fn check_c17(plan: &Value, h: &[GEv], hist: &[Ev]) -> Option<Violation> {
                     if !panicked {
                         attached_now = Some(ju(&op.spec, "dest", 0));
                         attached_changes.push((op.inv, op.ret, attached_now));
+                        attached_panics = js(&op.spec, "handle", "") == "panic" && !jb(&op.spec, "queue", false);
                     }
                 }
                 "detach" => {
-                    if op.outcome.starts_with("panic:") {
+                    let expected_panic = op.outcome.starts_with(&format!("panic:{HANDLE_PANIC}")) && attached_panics;
+                    if op.outcome.starts_with("panic:") && !expected_panic {
                         return Some(Violation::new("global_damaged", format!("dropping the attach handle (global {g}) panicked: {}", op.outcome)));
                     }
-                    if op.outcome == "ok" {
+                    if op.outcome == "stuck" {
+                        return Some(Violation::new("detach_never_reached_the_handle", format!("the attach handle (global {g}) was dropped on a helper thread, but the destructor of the handle that came with the sink had not begun after 1 s")));
+                    }
+                    if op.outcome == "ok" || expected_panic {
+                        attached_panics = false;
                         attached_now = None;
                         attached_changes.push((op.inv, op.ret, None));
                     }
@@ -717,7 +810,29 @@ pub fn gen_c17(rng: &mut Rng) -> Value {
     for t in 0..nt {
         let mut ops = vec![];
         let n = 3 + rng.below(10);
+        let mut pending_finish: Vec<(usize, u64)> = vec![];
+        // One run in six opens with a hand-over: a sink whose handle has a slow destructor is detached, and while that
+        // destructor is still running the next sink is attached and used; then the destructor is let go, and the new
+        // sink must still be the destination. (Peeked from a copy of the generator: no draw moves.)
+        let peek = rng.clone().next_u64();
+        if t == 0 && peek % 6 == 0 {
+            let g = (peek / 6) % 2;
+            let (d1, d2) = (next_dest + 1, next_dest + 2);
+            next_dest += 2;
+            ops.push(json!({"op":"attach","g":g,"dest":d1,"queue":false,"stream":false,"strict":false,"emitting_handle":false,"handle":"slow"}));
+            ops.push(json!({"op":"append","g":g,"id":next_id,"how":"try"}));
+            ops.push(json!({"op":"detach","g":g,"in_panic":false}));
+            ops.push(json!({"op":"attach","g":g,"dest":d2,"queue": (peek / 12) % 3 == 0,"stream":false,"strict":false,"emitting_handle":false,"handle":"plain"}));
+            ops.push(json!({"op":"append","g":g,"id":next_id + 1,"how":"try"}));
+            ops.push(json!({"op":"slow_finish","g":g}));
+            ops.push(json!({"op":"append","g":g,"id":next_id + 2,"how": *["try", "append", "sink"].get((peek / 36 % 3) as usize).unwrap()}));
+            next_id += 3;
+        }
         for _ in 0..n {
+            if let Some(i) = pending_finish.iter().position(|(at, _)| *at <= ops.len()) {
+                let (_, g) = pending_finish.remove(i);
+                ops.push(json!({"op":"slow_finish","g":g}));
+            }
             let g = rng.below(2);
             let c = rng.below(if t == 0 { 14 } else { 9 });
             match c {
@@ -747,9 +862,21 @@ pub fn gen_c17(rng: &mut Rng) -> Value {
                         let h = mix(next_dest, next_id);
                         last["emitting_handle_accepted"] = json!(h % 3 == 0);
                         last["stream_echo"] = json!(h % 5 < 2);
+                        // the handle that comes with a direct sink: plain, one whose destructor panics, one whose
+                        // destructor blocks until the harness lets it go
+                        last["handle"] = json!(["plain", "plain", "plain", "panic", "slow", "slow"][(h / 15 % 6) as usize]);
                     }
                 }
-                11 => ops.push(json!({"op":"detach","g":g,"in_panic": rng.chance(0.2)})),
+                11 => {
+                    ops.push(json!({"op":"detach","g":g,"in_panic": rng.chance(0.2)}));
+                    // (if the handle that came with the sink has a slow destructor it is let go now, or two operations
+                    // later - a new attach may come in between - or at the end of the thread)
+                    match mix(next_dest, next_id + 3) % 3 {
+                        0 => ops.push(json!({"op":"slow_finish","g":g})),
+                        1 => pending_finish.push((ops.len() + 2, g)),
+                        _ => {}
+                    }
+                }
                 12 => {
                     next_dest += 1;
                     ops.push(json!({"op":"rt_set","g":g,"rt":rng.below(2),"dest":next_dest,"strict": rng.chance(0.3),"yields": rng.chance(0.4),"slow_drop": rng.chance(0.4)}));
